@@ -18,14 +18,17 @@ CHECKS = {
         deep=True,      # ./check adds --deep for the thorough tier: bounds beyond the promoted ones (see bounds["thorough"])
         level="model_checking",
         runs=[dict(name="wipe", target="h_wipe", args=[], quick=[], thorough=[])],
-        deadline=dict(quick=150, thorough=600),
+        deadline=dict(quick=150, thorough=900),   # deep: ~230 s measured on a loaded machine (about 950 CPU-seconds)
         explanation=("states/transitions: hash = explicit-state search (engine/es.h) over (history, raw context bytes), one real Update/Final per edge; "
                      "aes/aesctr/keys = nodes and API calls of the history trees; dh = allocator events observed by the monitor during each call. "
                      "traces = complete histories ending in Final / free / return, each judged by the wipe oracle."),
         bounds=dict(quick="hash: 6 algorithms x Init,Update(k)^<=4,Final, k in {0,1,64,100}, HMAC keys {0,1,64,65,100} bytes; aes: {OpenSSL, AES-NI} x {16,32} x 2 keys x 0..2 encryptions; "
                           "aesctr: 2 paths x {16,32} x {init, alloc+init2} x 2 nonce sets x <=4 ops from 7; dh: 3 ops x 3 private x 3 blinding (+entropy failure) x 2 peers + every single OpenSSL "
                           "allocation failure for every private value x {r#0, r=x} x 3 ops; keys: all files of <=4 lines from 8 kinds x {EOF, read error}",
-                    thorough="hash: <=5 updates from 9 lengths; aes: 6 keys, 0..3 encryptions; aesctr: <=5 ops from 9; dh: 8 private x 6 blinding (+failure) x 4 peers, allocation failures for every private value; keys: <=4 lines"),
+                    thorough="hash: <=5 updates from 9 lengths; aes: 6 keys, 0..3 encryptions; aesctr: <=5 ops from 9; dh: 8 private x 6 blinding (+failure) x 4 peers, allocation failures for every private value; keys: <=4 lines "
+                             "(these bounds also serve the quick tier). ./check --tier thorough runs the harness with --deep: hash: <=6 updates from the 9 lengths (597871 contexts per algorithm/key, each finalised); "
+                             "aes: 16 keys, 0..5 encryptions; aesctr: <=6 ops from 11 (stream of 1|15|16|17|31|32|33|40|100 bytes, init2(NULL), init2(key')): 31179472 histories; dh: 14 private x 10 blinding (+entropy failure) "
+                             "x 6 peers + every single OpenSSL allocation failure for every private value x {r#0, r=x, r#1, entropy failure} x 3 ops (10640 failing calls); keys: all files of <=7 lines from 8 kinds x {EOF, read error} (2196114 files)"),
         assumptions=["frees by libcperciva objects observed through -Wl,--wrap=free,strdup; frees inside libcrypto through CRYPTO_set_mem_functions",
                      "crypto_entropy_read and fopen replaced at link time; AES code path forced through the cpusupport globals",
                      "DH: only 64-bit limbs with >= 6 distinct bytes that do not occur in p or the peer value are searched"],
